@@ -64,24 +64,42 @@ def run_one():
         if o.get("exttype"):
             body["extension_type"] = o["exttype"]
         user_cls = type(str(o["cls"]), (object,), body)
+        kwargs = {}
+        if o.get("extname") is not None:
+            kwargs["extension_name"] = o["extname"]
+        if o.get("id_contrib") is not None:
+            kwargs["id_contrib_props"] = list(o["id_contrib"])
         try:
             props = [(p[0], make_prop(p[1], o["ver"], bool(p[2]))) for p in o["props"]]
-            new = dec(o["name"], props)(user_cls)
+            new = dec(o["name"], props, **kwargs)(user_cls)
         except Exception as e:  # noqa: BLE001
             out.append({"registered": "exc:" + type(e).__name__})
             continue
-        try:
-            slots = []
-            for pname, p in new._properties.items():
+        def slots_of(mapping):
+            res = []
+            for pname, p in mapping.items():
                 if not isinstance(p, P.Property):
                     raise D.Abort("%s is not a Property" % pname)
-                slots.append({"name": pname, "kind": D.kind_of(p), "required": bool(p.required), "default": D.default_of(p)})
-            fam = D.family(new)
-            dumped = {"cid": new.__module__ + "." + new.__name__, "ver": o["ver"], "type": getattr(new, "_type", None),
-                      "family": fam, "slots": slots,
-                      "id_contrib": list(getattr(new, "_id_contributing_properties", []) or []) if fam == "sco" else [],
-                      "has_own_constraints": "_check_object_constraints" in vars(new),
-                      "toplevel": sorted(getattr(new, "_toplevel_properties", None) or [])}
+                res.append({"name": pname, "kind": D.kind_of(p), "required": bool(p.required), "default": D.default_of(p)})
+            return res
+
+        def dump_class(c, ver):
+            fam = D.family(c)
+            return {"cid": c.__module__ + "." + c.__name__, "ver": ver, "type": getattr(c, "_type", None),
+                    "family": fam, "slots": slots_of(c._properties),
+                    "id_contrib": list(getattr(c, "_id_contributing_properties", []) or []) if fam == "sco" else [],
+                    "has_own_constraints": "_check_object_constraints" in vars(c),
+                    "toplevel": slots_of(getattr(c, "_toplevel_properties", None) or {})}
+
+        try:
+            dumped = dump_class(new, o["ver"])
+            dumped["with_extension"] = getattr(new, "with_extension", None)
+            side = None
+            if dumped["with_extension"]:
+                from stix2.registry import class_for_type
+                sc = class_for_type(dumped["with_extension"], o["ver"], "extensions")
+                side = dump_class(sc, o["ver"]) if sc is not None else {"missing": True}
+            dumped["side"] = side
             out.append({"registered": "ok", "cls": dumped})
         except D.Abort as e:
             out.append({"registered": "ok", "abort": str(e)})
